@@ -89,11 +89,21 @@ pub struct Cfg {
     /// "new code location" pre-emptions are drawn from 1..=preempt_max_distinct further distinct edges
     #[serde(default)]
     pub preempt_max_distinct: u64,
+    /// deliver this signal to the thread that reaches scheduling point number `signal_at_step` (a termination signal
+    /// landing at that instruction boundary): the real handler chain runs on that thread
+    #[serde(default)]
+    pub signal_at_step: Option<u64>,
+    #[serde(default)]
+    pub signal: i32,
+    /// or: deliver it after this many instrumented basic-block edges were executed by simulated threads (any
+    /// instruction boundary between two libc calls)
+    #[serde(default)]
+    pub signal_at_edge: Option<u64>,
 }
 
 impl Cfg {
     pub fn new(seed: u64) -> Self {
-        Cfg { seed, policy: Policy::RandomWalk { stay: 800 }, max_steps: 200_000, point_permille: 1000, point_salt: 0, replay: None, strict: false, trace: false, preempt_more_permille: 0, preempt_max_gap: 1000, preempt_max_distinct: 300 }
+        Cfg { seed, policy: Policy::RandomWalk { stay: 800 }, max_steps: 200_000, point_permille: 1000, point_salt: 0, replay: None, strict: false, trace: false, preempt_more_permille: 0, preempt_max_gap: 1000, preempt_max_distinct: 300, signal_at_step: None, signal: 0, signal_at_edge: None }
     }
 }
 
@@ -407,6 +417,14 @@ unsafe fn pick(cur: usize, why: Why) -> Option<usize> {
         r.budget_exceeded = true;
         return None;
     }
+    if r.cfg.signal_at_step == Some(r.steps) {
+        if cur < r.n && why != Why::Exit && r.slots[cur].st == St::Runnable {
+            deliver_signal(cur);
+        } else {
+            // the thread at this point is about to block or exit: the signal lands on whoever runs at the next point
+            r.cfg.signal_at_step = Some(r.steps + 1);
+        }
+    }
     if let Policy::Pct { .. } = r.cfg.policy {
         if r.change_points.contains(&r.steps) && cur < r.n {
             r.low_prio -= 1;
@@ -483,6 +501,31 @@ unsafe fn pick(cur: usize, why: Why) -> Option<usize> {
             Some(t) => r.clock = r.clock.max(t),
         }
     }
+}
+
+/// Arm the signal to land after `n` more executed edges from here (a scenario aiming at a particular operation).
+pub fn arm_signal_after_edges(n: u64) {
+    unsafe { SIG_COUNTDOWN = n.max(1) as i64 };
+}
+static mut SIGNAL_HOOK: Option<fn(usize)> = None;
+/// Called (on the signalled thread, before the signal is raised) so that a scenario can journal the instant.
+pub fn set_signal_hook(f: Option<fn(usize)>) {
+    unsafe { SIGNAL_HOOK = f };
+}
+/// The signal lands here, on the thread that is running: the real handler chain runs on it, nested in whatever it
+/// was doing, and other simulated threads may be scheduled while it runs.
+unsafe fn deliver_signal(cur: usize) {
+    let r = rt();
+    if let Some(s) = shm() {
+        *s.hdr_u64(4) = r.steps;
+    }
+    r.cfg.signal_at_step = None;
+    r.cfg.signal_at_edge = None;
+    if let Some(h) = SIGNAL_HOOK {
+        h(cur);
+    }
+    let sig = if r.cfg.signal == 0 { libc::SIGTERM } else { r.cfg.signal };
+    libc::raise(sig);
 }
 
 unsafe fn finish_run() {
@@ -564,6 +607,7 @@ pub unsafe extern "C" fn gix_verif_point(label: *const u8, len: usize) {
 const EDGE_OFF: i64 = 20_000;
 static mut EDGE_COUNTDOWN: i64 = EDGE_OFF;
 static mut EDGE_BASE: i64 = EDGE_OFF;
+static mut SIG_COUNTDOWN: i64 = i64::MAX;
 static mut N_GUARDS: u32 = 0;
 static mut PLANNED: bool = false;
 static mut SEEN: Vec<u64> = Vec::new();
@@ -621,6 +665,13 @@ pub unsafe extern "C" fn __sanitizer_cov_trace_pc_guard(_guard: *mut u32) {
                 EDGE_COUNTDOWN = 1;
                 PLANNED = true;
             }
+        }
+    }
+    SIG_COUNTDOWN -= 1;
+    if SIG_COUNTDOWN == 0 {
+        match me() {
+            Some(m) => deliver_signal(m),
+            None => SIG_COUNTDOWN = 1,
         }
     }
     EDGE_COUNTDOWN -= 1;
@@ -912,6 +963,12 @@ pub unsafe extern "C" fn sched_getaffinity(pid: libc::pid_t, size: libc::size_t,
         *(set as *mut u8) = 0xff;
         return 0;
     }
+    if PRESIM_RNG.is_some() && !set.is_null() && size >= 8 {
+        // seeded set-up phase: the machine size is part of the seed too (it sizes sharded maps)
+        std::ptr::write_bytes(set as *mut u8, 0, size);
+        *(set as *mut u8) = PRESIM_CPUS;
+        return 0;
+    }
     let f = real_fn!("sched_getaffinity", unsafe extern "C" fn(libc::pid_t, libc::size_t, *mut libc::cpu_set_t) -> libc::c_int);
     f(pid, size, set)
 }
@@ -926,9 +983,25 @@ pub unsafe extern "C" fn getrandom(buf: *mut libc::c_void, len: libc::size_t, fl
         r.rand_rng.fill(std::slice::from_raw_parts_mut(buf as *mut u8, len));
         return len as libc::ssize_t;
     }
+    if let Some(g) = PRESIM_RNG.as_mut() {
+        g.fill(std::slice::from_raw_parts_mut(buf as *mut u8, len));
+        return len as libc::ssize_t;
+    }
     let f = real_fn!("getrandom", unsafe extern "C" fn(*mut libc::c_void, libc::size_t, libc::c_uint) -> libc::ssize_t);
     f(buf, len, flags)
 }
+static mut PRESIM_RNG: Option<crate::prng::Rng> = None;
+/// Make `getrandom` deterministic also outside a simulation (set-up code whose hash seeds matter, e.g. a registry
+/// created before the run starts). Single-threaded use only.
+pub fn set_presim_random(seed: Option<u64>) {
+    unsafe {
+        PRESIM_RNG = seed.map(|s| crate::prng::Rng::stream(s, 77));
+        if let Some(s) = seed {
+            PRESIM_CPUS = [0x01u8, 0x01, 0x01, 0x03, 0xff][(crate::prng::Rng::stream(s, 78).next_u64() % 5) as usize];
+        }
+    }
+}
+static mut PRESIM_CPUS: u8 = 0xff;
 
 // ---------------------------------------------------------------------------------------------------------------
 // futex emulation (+ getrandom via syscall)
@@ -1005,6 +1078,11 @@ pub unsafe extern "C" fn syscall(num: libc::c_long, a1: usize, a2: usize, a3: us
         let r = rt();
         r.rand_rng.fill(std::slice::from_raw_parts_mut(a1 as *mut u8, a2));
         return a2 as libc::c_long;
+    } else if num == libc::SYS_getrandom {
+        if let Some(g) = PRESIM_RNG.as_mut() {
+            g.fill(std::slice::from_raw_parts_mut(a1 as *mut u8, a2));
+            return a2 as libc::c_long;
+        }
     }
     real_syscall()(num, a1, a2, a3, a4, a5, a6)
 }
@@ -1125,6 +1203,7 @@ pub fn run(cfg: Cfg, f: impl FnOnce() + Send + 'static) -> Outcome {
         });
         EDGE_COUNTDOWN = EDGE_OFF;
         EDGE_BASE = EDGE_OFF;
+        SIG_COUNTDOWN = rt().cfg.signal_at_edge.map_or(i64::MAX, |e| e.max(1) as i64);
         SEEN = vec![0u64; (N_GUARDS as usize >> 6) + 2];
         DISTINCT = 0;
         DISTINCT_TARGET = u64::MAX;
